@@ -475,7 +475,7 @@ class Envelope(Lane):
 
 def body(chk):
     quick = chk.tier == 'quick'
-    bl = 2 if quick else 4
+    bl = 2 if quick else tier_param('C19', 4)
     run_lane(chk, Requests, (bl,), bounds={'cookies / identifiers': f'<= {bl} symbolic bytes', 'page size': 'all of 0..2^31-1', 'attribute lists': '<= 2 names', 'filters (Assertion, MatchedValues)': '2 templates with symbolic attribute/value characters',
                                           'PasswordModify': 'all 8 presence combinations'}, need_regions=tuple(Requests.KINDS))
     run_lane(chk, Responses, (bl,), bounds={'cookies / identifiers': f'<= {bl} symbolic bytes', 'length forms': FORMS, 'SyncInfo': 'all 4 alternatives, optional cookie/flag, <= 2 UUIDs'}, selftest=False,
